@@ -48,6 +48,19 @@ impl RaftClusterRequestSender {
                 );
             }
         }
+        #[cfg(rnacos_verif)]
+        if let Some(res) =
+            crate::verif_hook::transport_send(self.sys_config.clone(), addr.clone(), payload.clone())
+                .await
+        {
+            let payload = res?;
+            if let Some(meta) = &payload.metadata {
+                if &meta.r#type == "ErrorResponse" {
+                    return Err(anyhow::anyhow!("raft target response error"));
+                }
+            }
+            return Ok(payload);
+        }
         let resp = match request_client.request(payload).await {
             Ok(resp) => {
                 self.conn_factory.do_send(RaftConnRequest::UpdateChannel {
